@@ -24,7 +24,9 @@ defaultdict / Counter / OrderedDict, UserList / UserDict applied to a namespace
 whose `data` is the container), inside a context dict and inside env.globals.
 Every name of the type object that is a method of the container type or of its
 ABC is called with the container as first argument plus the argument pool,
-along 13 template paths; ground truth again by executing it on a copy.
+along 13 template paths; ground truth again by executing it on a copy; a name
+that modifies the container this way must also be an undefined value when
+looked up on the type object.
 *Attribute targets in every binding syntax*: `x.attr` written wherever the
 grammar has an assignment target or binds a name (set, block set with and
 without filters, empty / nested / tuple block set, tuple set, parenthesised and
@@ -121,7 +123,8 @@ FLOORS = {
                            "type_method_cases:context-dict-of-types": 180,
                            "type_method_cases:env-global": 190,
                            "target_cases:container": 200, "target_block_set_cases": 160,
-                           "target_namespace_controls_ok": 26, "target_forms_executing": 4}},
+                           "target_namespace_controls_ok": 26, "target_forms_executing": 4,
+                           "type_defined_checks": 200}},
     "thorough": {"evaluations": 60000, "distinct": 60000,
                  "counters": {"method_cases": 30000, "mutating_attempts": 8000,
                               "security_errors": 6000, "filter_cases": 30000,
@@ -129,7 +132,20 @@ FLOORS = {
                               "method_names": 150, "filters_covered": 40,
                               "defined_checks": 300, "autoescape_renders": 60000,
                               "filter_cases_autoescape": 40000, "via_map_cases": 20000,
-                              "assign_cases:tuple": 420, "assign_cases:nsinit": 88}},
+                              "assign_cases:tuple": 420, "assign_cases:nsinit": 88,
+                              "type_method_cases": 30000, "type_mutating_attempts": 20000,
+                              "type_security_errors": 17000,
+                              "type_method_cases:builtin-global": 850,
+                              "type_method_cases:context-exact-type": 5700,
+                              "type_method_cases:context-subclass": 5700,
+                              "type_method_cases:context-abc": 3400,
+                              "type_method_cases:context-stdlib-subclass": 2000,
+                              "type_method_cases:context-user-wrapper": 2000,
+                              "type_method_cases:context-dict-of-types": 5700,
+                              "type_method_cases:env-global": 5700,
+                              "target_cases:container": 6000, "target_block_set_cases": 4800,
+                              "target_namespace_controls_ok": 780, "target_forms_executing": 4,
+                              "type_defined_checks": 400}},
 }
 
 TYPES = {"list": list, "dict": dict, "set": set, "deque": collections.deque}
